@@ -108,32 +108,44 @@ func narrowCounters(p *Prog, r *Reporter) {
 func columnEffectsComplete(p *Prog, r *Reporter) {
 	zero := p.zeroingFns()
 	raw := p.rawCopyPrimitives()
+	effect := func(i ssa.Instruction) bool {
+		c, ok := i.(ssa.CallInstruction)
+		if !ok {
+			return false
+		}
+		if isZeroingCall(c) {
+			return true
+		}
+		callees, _ := p.Callees(c)
+		for _, sc := range callees {
+			if zero[sc] || raw[sc] {
+				return true
+			}
+		}
+		return false
+	}
+	zeroSized := func(b *ssa.BasicBlock, k int) bool {
+		atom, holds, ok := edgeCond(b, k)
+		if !ok {
+			return false
+		}
+		rel, c, ok := boundOnEdge(atom, holds, func(v ssa.Value) bool {
+			_, f, _, okf := loadedField(v)
+			return okf && f == "itemSize"
+		})
+		return ok && rel == "==" && c == 0
+	}
 	for _, fn := range p.Funcs {
 		root := fn
 		for root.Parent() != nil {
 			root = root.Parent()
 		}
-		if typeName(recvType(root)) != "archetype" {
+		if tn := typeName(recvType(root)); tn != "archetype" && tn != "archetypeAccess" {
 			continue
-		}
-		effect := func(i ssa.Instruction) bool {
-			c, ok := i.(ssa.CallInstruction)
-			if !ok {
-				return false
-			}
-			if isZeroingCall(c) {
-				return true
-			}
-			callees, _ := p.Callees(c)
-			for _, sc := range callees {
-				if zero[sc] || raw[sc] {
-					return true
-				}
-			}
-			return false
 		}
 		// loop headers whose body contains an effect
 		n := 0
+		anyLoopEffect := false
 		for _, h := range fn.Blocks {
 			if !isLoopHeader(h) {
 				continue
@@ -153,21 +165,12 @@ func columnEffectsComplete(p *Prog, r *Reporter) {
 			if !has {
 				continue
 			}
+			anyLoopEffect = true
 			n++
 			// must-flow inside the loop: reset at the header
 			mf := &MustFlow{Fn: fn,
-				InstrGen: effect,
-				EdgeGen: func(b *ssa.BasicBlock, k int) bool {
-					atom, holds, ok := edgeCond(b, k)
-					if !ok {
-						return false
-					}
-					rel, c, ok := boundOnEdge(atom, holds, func(v ssa.Value) bool {
-						_, f, _, okf := loadedField(v)
-						return okf && f == "itemSize"
-					})
-					return ok && rel == "==" && c == 0
-				},
+				InstrGen:  effect,
+				EdgeGen:   zeroSized,
 				InstrKill: func(i ssa.Instruction) bool { return i.Block() == h && i == h.Instrs[0] },
 			}
 			mf.Run()
@@ -191,7 +194,40 @@ func columnEffectsComplete(p *Prog, r *Reporter) {
 				r.Bad(p.FuncName(fn), construct, p.Pos(posOf(h.Instrs[len(h.Instrs)-1])), "an iteration can reach the next one (back edge at "+bad+") without zeroing/copying its column and without knowing that the column is zero-sized: that column keeps its old bytes")
 			}
 		}
+		// the same loop body written as a per-column visitor: a closure taking the column (its id or layout) that
+		// contains an effect is one iteration; every return of it is the end of the iteration
+		if fn.Parent() != nil && !anyLoopEffect && columnVisitor(fn) {
+			has := false
+			for _, b := range fn.Blocks {
+				for _, ins := range b.Instrs {
+					if effect(ins) {
+						has = true
+					}
+				}
+			}
+			if has {
+				mf := &MustFlow{Fn: fn, InstrGen: effect, EdgeGen: zeroSized}
+				mf.Run()
+				construct := "per-column effect visitor"
+				if mf.AtAllReturns() {
+					r.OK(p.FuncName(fn), construct, p.Pos(fn.Pos()), "every call zeroes/copies its column, or the column is zero-sized")
+				} else {
+					r.Bad(p.FuncName(fn), construct, p.Pos(fn.Pos()), "the per-column callback can return without zeroing/copying its column and without knowing that the column is zero-sized: that column keeps its old bytes")
+				}
+			}
+		}
 	}
+}
+
+// columnVisitor: a closure whose parameters name one column (a component id or a column layout).
+func columnVisitor(fn *ssa.Function) bool {
+	for _, pr := range fn.Params {
+		switch typeName(pr.Type()) {
+		case "ID", "layout":
+			return true
+		}
+	}
+	return false
 }
 
 // ---------- the pool is restored verbatim ----------
@@ -300,6 +336,7 @@ func variadicTargetForwarded(p *Prog, r *Reporter) {
 			continue
 		}
 		fact := "lenpos(" + last.Name() + ")"
+		zfact := "lenzero(" + last.Name() + ")"
 		n := 0
 		for _, b := range fn.Blocks {
 			iff, ok := b.Instrs[len(b.Instrs)-1].(*ssa.If)
@@ -344,6 +381,15 @@ func variadicTargetForwarded(p *Prog, r *Reporter) {
 					if p.info(fn).cutAt[x] >= 0 {
 						continue
 					}
+					// edges that test the (unchanged) target list again and need it empty are not feasible here
+					if xi, ok := x.Instrs[len(x.Instrs)-1].(*ssa.If); ok {
+						for j, sx := range x.Succs {
+							if !boolFacts(xi.Cond, j == 0, 0)[zfact] {
+								work = append(work, sx)
+							}
+						}
+						continue
+					}
 					work = append(work, x.Succs...)
 				}
 				construct := fmt.Sprintf("target given (%s) #%d", last.Name(), n)
@@ -382,6 +428,12 @@ func targetFlagsCoverIndex(p *Prog, r *Reporter) {
 						if sl, ok := mk.Type().Underlying().(*types.Slice); ok && typeName(sl.Elem()) == "entityIndex" {
 							if c := stripConvs(mk.Cap); c == x || structEq(c, x, 0) {
 								okc, why = true, "the capacity the index is allocated with"
+							}
+							// a constant size covering the constant length the index starts with (the constructor)
+							if cx, ok := x.(*ssa.Const); ok && cx.Value != nil {
+								if cl, ok := stripConvs(mk.Len).(*ssa.Const); ok && cl.Value != nil && cx.Int64() >= cl.Int64() {
+									okc, why = true, "a constant covering the constant length the index is created with"
+								}
 							}
 						}
 					}
@@ -478,11 +530,11 @@ func cacheEntryMoves(p *Prog, r *Reporter) {
 					if !ok {
 						return false
 					}
-					bo, isB := atom.(*ssa.BinOp)
-					if !isB {
-						return false
+					if differsEdge(atom, holds) {
+						return true
 					}
-					return bo.Op == token.NEQ && holds || bo.Op == token.EQL && !holds
+					// a flag returned by a removal helper that is true only where the helper knows the positions differ
+					return holds && flagMeansDiffers(atom)
 				}}
 				mf.Run()
 				guarded = mf.Before(mu)
@@ -497,6 +549,62 @@ func cacheEntryMoves(p *Prog, r *Reporter) {
 	if n == 0 {
 		r.Anchor("Cache: re-indexing of moved entries")
 	}
+}
+
+func differsEdge(atom ssa.Value, holds bool) bool {
+	bo, isB := atom.(*ssa.BinOp)
+	if !isB {
+		return false
+	}
+	return bo.Op == token.NEQ && holds || bo.Op == token.EQL && !holds
+}
+
+// flagMeansDiffers: v is a boolean result of a statically resolved call, and the callee returns the constant true in
+// that position only on paths on which two values are known to differ (and constants everywhere else).
+func flagMeansDiffers(v ssa.Value) bool {
+	idx := 0
+	var call *ssa.Call
+	switch x := v.(type) {
+	case *ssa.Extract:
+		c, ok := x.Tuple.(*ssa.Call)
+		if !ok {
+			return false
+		}
+		call, idx = c, x.Index
+	case *ssa.Call:
+		call = x
+	default:
+		return false
+	}
+	sc := call.Common().StaticCallee()
+	if sc == nil || len(sc.Blocks) == 0 {
+		return false
+	}
+	mf := &MustFlow{Fn: sc, EdgeGen: func(x *ssa.BasicBlock, k int) bool {
+		atom, holds, ok := edgeCond(x, k)
+		return ok && differsEdge(atom, holds)
+	}}
+	mf.Run()
+	sawTrue := false
+	for _, b := range sc.Blocks {
+		for _, ins := range b.Instrs {
+			ret, ok := ins.(*ssa.Return)
+			if !ok || idx >= len(ret.Results) {
+				continue
+			}
+			c, ok := ret.Results[idx].(*ssa.Const)
+			if !ok || c.Value == nil || c.Value.Kind() != constant.Bool {
+				return false
+			}
+			if constant.BoolVal(c.Value) {
+				sawTrue = true
+				if !mf.Before(ret) {
+					return false
+				}
+			}
+		}
+	}
+	return sawTrue
 }
 
 // ---------- the lock mask validates before it changes ----------
@@ -621,12 +729,15 @@ func idsNotFabricated(p *Prog, r *Reporter) {
 		for root.Parent() != nil {
 			root = root.Parent()
 		}
-		if typeName(recvType(root)) != "archetype" {
+		if tn := typeName(recvType(root)); tn != "archetype" && tn != "archetypeAccess" {
 			continue
 		}
 		for _, site := range callsIn(fn) {
 			sc := site.Common().StaticCallee()
-			if sc == nil || typeName(recvType(sc)) != "archetype" {
+			if sc == nil {
+				continue
+			}
+			if tn := typeName(recvType(sc)); tn != "archetype" && tn != "archetypeAccess" {
 				continue
 			}
 			for i, a := range site.Common().Args {
@@ -830,15 +941,43 @@ func exchangeListsAgree(p *Prog, r *Reporter) {
 			}
 			return apath(v)
 		}
+		isRelExchange := func(sc *ssa.Function, a []ssa.Value) bool {
+			return sc != nil && sc.Pkg != nil && sc.Pkg.Pkg.Name() == "ecs" && typeName(recvType(sc)) == "Relations" && strings.HasPrefix(cname(sc), "Exchange") && len(a) >= 4
+		}
 		for _, site := range callsIn(fn) {
 			sc := site.Common().StaticCallee()
+			if sc != nil && sc.Pkg == fn.Pkg && sc != fn && typeName(recvType(sc)) == "Exchange" {
+				// a shared helper of the same type: its relation call with the helper's parameters replaced by this call's arguments
+				outer := site.Common().Args
+				sub := func(v ssa.Value) string {
+					if sl, ok := v.(*ssa.Slice); ok {
+						v = sl.X
+					}
+					if pr, ok := v.(*ssa.Parameter); ok {
+						for i, q := range sc.Params {
+							if q == pr && i < len(outer) {
+								return norm(outer[i])
+							}
+						}
+					}
+					return norm(v)
+				}
+				for _, inner := range callsIn(sc) {
+					if ic := inner.Common().StaticCallee(); isRelExchange(ic, inner.Common().Args) {
+						ia := inner.Common().Args
+						rel = append(rel, lists{sub(ia[2]), sub(ia[3])})
+						pos = append(pos, p.Pos(site.Pos()))
+					}
+				}
+				continue
+			}
 			if sc == nil || sc.Pkg == nil || sc.Pkg.Pkg.Name() != "ecs" {
 				continue
 			}
 			a := site.Common().Args
 			rt := typeName(recvType(sc))
 			switch {
-			case rt == "Relations" && strings.HasPrefix(cname(sc), "Exchange") && len(a) >= 4:
+			case isRelExchange(sc, a):
 				rel = append(rel, lists{norm(a[2]), norm(a[3])})
 				pos = append(pos, p.Pos(site.Pos()))
 			case (rt == "World" || rt == "Batch") && (cname(sc) == "Add" || cname(sc) == "AddQ") && len(a) >= 3:
